@@ -81,7 +81,7 @@ func main() {
 	// the format switch with one lost reply on a target whose client stays usable (cluster of one
 	// primary; engine of C14's fault sweeps, which installs its own process-wide configuration:
 	// nothing of this check runs beside it)
-	nSw := run.N(1, 36)
+	nSw := run.N(1, 12)
 	drv := bisweep.NewDriver(syncer.VerifNewOutput)
 	bisweep.SwitchSweeps(run, bisweep.FaultOptions{NCases: nSw, Workers: 3, Driver: drv, Factory: bisweep.NewStandalone, DelSamples: run.N(1, 8)})
 	drv.Close()
